@@ -162,6 +162,25 @@ def eval_oracle(rng, s, n):
     return None, stats, [("enc_eval (eval %s %s %s)" % (term_env, st, dc.tree_term(t)), want) for t, want in model_cases]
 
 
+def known_replays(ctx, findings):
+    """Findings recorded with a session: the commands are replayed on the real shell; an exception is the finding."""
+    out = []
+    for e in findings:
+        ses = e.get("session")
+        if not ses:
+            continue
+        rs = dc.RealSession(ses["program"], {"big_stack": False, "init": [], "warn_return_on": True})
+        bad = None
+        if rs.ok:
+            for line in ses["commands"]:
+                r = rs.command(line)
+                if r["exc"]:
+                    bad = "the shell raised %s on %r" % (r["exc"], line)
+                    break
+        out.append((e, bad is not None, bad))
+    return out
+
+
 def correspondence(ctx, model_available=True):
     quick = ctx.tier == "quick"
     rng = ctx.rng
